@@ -16,7 +16,7 @@ from ..ref import RefTransform, Weights
 
 LEVEL = "exploration"
 BATCH = 25
-FAMS = ["QP", "NLP", "NLP", "DEG", "INF", "UNB", "NCVX", "BAND", "INTQP"]
+FAMS = ["QP", "NLP", "NLP", "DEG", "INF", "UNB", "NCVX", "BAND", "INTQP", "INTQP", "F32QP"]
 
 
 def gen_cases(tier, seed):
@@ -96,9 +96,20 @@ def run_case(case):
         # the problem handed to pygradflow may return cached objects (one constant object / memoised per point):
         # the same object is then transformed again and again
         policy = str(rng.choice(["fresh", "fresh", "const", "memo"]))
-        prob = SpecProblem(spec, fmt=fmt, dup=dup, policy=policy)
-        prob2 = SpecProblem(spec, fmt=fmt, dup=dup)
+        if fam in ("INTQP", "F32QP") and rng.random() < 0.7:
+            dup = key["dup"] = 0   # (narrow dtypes are only used with canonical storage)
+        # gradient / constraint values handed over in single precision in a share of the single-precision problems
+        vdt = "float32" if fam == "F32QP" and rng.random() < 0.5 else None
+        if fam == "INTQP" and rng.random() < 0.3:
+            vdt = "int64"   # callbacks written with integer arithmetic throughout
+            bump("int64_vectors")
+        prob = SpecProblem(spec, fmt=fmt, dup=dup, policy=policy, vec_dtype=vdt)
+        prob2 = SpecProblem(spec, fmt=fmt, dup=dup, vec_dtype=vdt)
         bump("policy_" + policy)
+        if spec.m and not dup:
+            bump("jacobian_dtype_%s" % prob2.cons_jac(np.array(spec.x0, dtype=float)).dtype)
+        if vdt:
+            bump("float32_vectors")
         weights = None
         if sc in ("custom", "custom_extreme"):
             span = 40 if sc == "custom" else 500
@@ -164,13 +175,18 @@ def run_case(case):
                 fpe = True
                 break
             pairs = []
-            rv = R.obj(z)
-            pairs.append(("obj", tp.obj(z), rv))
-            pairs.append(("obj_grad", tp.obj_grad(z), R.obj_grad(z)))
+            todo = [("obj", lambda: tp.obj(z), lambda: R.obj(z)), ("obj_grad", lambda: tp.obj_grad(z), lambda: R.obj_grad(z))]
             if R.m:
-                pairs.append(("cons", tp.cons(z), R.cons(z)))
-                pairs.append(("cons_jac", tp.cons_jac(z).toarray(), R.cons_jac(z)))
-            pairs.append(("lag_hess", tp.lag_hess(z, y).toarray(), R.lag_hess(z, y)))
+                todo.append(("cons", lambda: tp.cons(z), lambda: R.cons(z)))
+                todo.append(("cons_jac", lambda: tp.cons_jac(z).toarray(), lambda: R.cons_jac(z)))
+            todo.append(("lag_hess", lambda: tp.lag_hess(z, y).toarray(), lambda: R.lag_hess(z, y)))
+            for name, fgot, fexp in todo:
+                exp = fexp()
+                try:
+                    pairs.append((name, fgot(), exp))
+                except Exception as ex:
+                    bad(name, "evaluation of the internal problem raised %s: %s" % (type(ex).__name__, str(ex)[:100]),
+                        {"z": z, "exc": type(ex).__name__})
             for name, got, exp in pairs:
                 # set aside over/underflow of the scaling itself ("absent overflow")
                 # (the repository scales every stored entry, duplicates separately, the reference scales the
@@ -214,7 +230,13 @@ def run_case(case):
                         "(slacks must be the projection of c_s(x0) onto [l_s,u_s])",
                         {"x0": xarr, "y0": yarr, "got_x": it.x, "ref_x": zi, "got_y": it.y, "ref_y": yi})
                 else:
-                    if R.m and not _same(it.cons, R.cons(zi)):
+                    try:
+                        itc = it.cons if R.m else None
+                    except Exception as ex:
+                        itc = None
+                        bad("iterate.cons", "evaluation of the internal residual at the start raised %s: %s"
+                            % (type(ex).__name__, str(ex)[:100]), {"exc": type(ex).__name__})
+                    if R.m and itc is not None and not _same(itc, R.cons(zi)):
                         bad("iterate.cons", "internal residual at the start differs from the scaled user residual")
                     d = rng.normal(size=R.n + R.ns)
                     gx, gy, gd = T.restore_sol(np.copy(it.x), np.copy(it.y), d)
@@ -243,7 +265,7 @@ def run_case(case):
 
 def finalize(agg, tier):
     return {
-        "rule": "generated problems of all families x sparse format (COO/CSR/CSC, optionally non-canonical with "
+        "rule": "generated problems of all families (incl. integer / 0-1 / single-precision data handed over as int64, int32, int8, bool, float32 matrices and float32 vectors) x sparse format (COO/CSR/CSC, optionally non-canonical with "
                 "duplicates and explicit zeros) x scaling (none, custom weights in [-40,40], extreme custom weights "
                 "+-500, GradJac, Nominal, KKT) x 3 evaluation points (on/inside/outside bounds; 7 for specs with structurally sparse derivatives, five of them differing in which variables sit exactly at 0 so that the stored pattern of the user's matrices changes between evaluations of the same transformed problem) with random "
                 "multipliers of magnitude 1e-3..1e3, plus start-point mapping for x0 None/scalar/array/out-of-bounds "
@@ -251,7 +273,8 @@ def finalize(agg, tier):
                 "itself over- or underflowing (those are set aside and counted); distinct by (spec seed, scaling, format)",
         "floors": {"compared_cons": 500, "compared_cons_jac": 500, "compared_lag_hess": 1000,
                    "compared_initial_iterate": 500, "compared_restore": 500, "scaling_custom": 100,
-                   "scaling_GradJac": 50, "scaling_KKT": 50, "scaling_Nominal": 50, "points_with_pattern_switch": 300, "policy_const": 200, "policy_memo": 200},
+                   "scaling_GradJac": 50, "scaling_KKT": 50, "scaling_Nominal": 50, "points_with_pattern_switch": 300, "policy_const": 200, "policy_memo": 200,
+                   "jacobian_dtype_bool": 40, "jacobian_dtype_float32": 40, "jacobian_dtype_int64": 40, "float32_vectors": 30, "int64_vectors": 30},
         "assumptions": ["bit-level oracle: ldexp by integer weights is exact absent over/underflow; cases where the "
                         "scaling over- or underflows are set aside per the statement ('absent overflow')"],
     }
